@@ -302,6 +302,86 @@ def run(chk: Check, eng: Engine) -> None:
     else:
         chk.ok("R14-c", "FandangoLexerBase::reset (cpp)", 0, f"C++ reset() re-initialises {sorted(cpp_written)}")
 
+    # ---- R14-d ---------------------------------------------------------------
+    # the layout algorithm (NEWLINE / INDENT / DEDENT) is hand-written twice: compare the two implementations as siblings
+    chk.rule("R14-d", "the hand-written layout algorithm agrees on both sides: same decision points (conditions of if / while / for, in order) in on_newline, "
+             "same arithmetic in the indentation counter, same definitions of the values the conditions test", floor=3)
+    from .. import cppmini as cm
+
+    list_attrs = set()
+    init = base_cls.methods.get("__init__")
+    if init is not None:
+        for n in ast.walk(init.node):
+            tgt = val = ann = None
+            if isinstance(n, ast.AnnAssign):
+                tgt, val, ann = n.target, n.value, n.annotation
+            elif isinstance(n, ast.Assign) and len(n.targets) == 1:
+                tgt, val = n.targets[0], n.value
+            if isinstance(tgt, ast.Attribute) and isinstance(tgt.value, ast.Name) and tgt.value.id == "self":
+                if isinstance(val, ast.List) or (ann is not None and norm(ann).startswith("list")):
+                    list_attrs.add(cm.fold(tgt.attr))
+    if not list_attrs:
+        raise AnalysisError("FandangoLexerBase.__init__: no list attribute found")
+
+    def strip_self(c):
+        if isinstance(c, tuple):
+            if c and c[0] == "call" and c[1] in (None, ("name", "self"), ("name", "this")):
+                return ("call", None, c[2], tuple(strip_self(a) for a in c[3]))
+            return tuple(strip_self(x) for x in c)
+        return c
+
+    PAIRS = [("FandangoLexerBase::_on_newline", "on_newline", False), ("FandangoLexerBase::getIndentationCount", "get_indentation_count", True)]
+    for cname, pname, full in PAIRS:
+        pm_ = base_cls.methods.get(pname)
+        if pm_ is None:
+            raise AnalysisError(f"FandangoLexerBase.{pname} not found on the Python side")
+        try:
+            cst = cm.parse_function(ctxt, cname)
+            sc = cm.skeleton_cpp(cst, list_attrs)
+            uc = cm.updates_cpp(cst, list_attrs)
+        except cm.CppError as e:
+            raise AnalysisError(f"{cname}: the C++ reader does not understand the function ({e})")
+        sp = cm.skeleton_py(pm_.node.body, list_attrs)  # type: ignore[attr-defined]
+        up = cm.updates_py(pm_.node.body, list_attrs)  # type: ignore[attr-defined]
+        where = f"{pname} / {cname}"
+        if [strip_self(x) for x in sc] == [strip_self(x) for x in sp]:
+            chk.ok("R14-d", where, pm_.line, f"{len(sp)} decision point(s) agree: " + "; ".join(cm.show(x) for x in sp))
+        else:
+            diff = [(a, b) for a, b in zip(sc, sp) if strip_self(a) != strip_self(b)]
+            what = f"C++ `{cm.show(diff[0][0])}` vs Python `{cm.show(diff[0][1])}`" if diff else f"{len(sc)} decision points in C++, {len(sp)} in Python"
+            chk.bad("R14-d", f"{PY_DIR}/FandangoLexerBase.py", pm_.line, where, f"the decision points differ: {what}",
+                    "for some spec text the two front ends emit different NEWLINE / INDENT / DEDENT tokens: one accepts what the other rejects, or they extract different code blocks",
+                    keyparts=f"layout-skeleton|{pname}")
+        # definitions of the values the conditions test (names defined on both sides), or every update for the small numeric function
+        dc = {x[1]: x[2] for x in uc if x[0] == "assign" and x[1][0] == "name"}
+        dp = {x[1]: x[2] for x in up if x[0] == "assign" and x[1][0] == "name"}
+        if full:
+            same = [strip_self(x) for x in uc] == [strip_self(x) for x in up]
+            if same:
+                chk.ok("R14-d", where, pm_.line, "identical arithmetic: " + "; ".join(cm.show(x) for x in up))
+            else:
+                chk.bad("R14-d", f"{PY_DIR}/FandangoLexerBase.py", pm_.line, where, "the arithmetic differs: C++ [" + "; ".join(cm.show(x) for x in uc) + "] vs Python [" + "; ".join(cm.show(x) for x in up) + "]",
+                        "the two lexers compute different indentation widths for the same whitespace (tabs after spaces): blocks nest differently", keyparts=f"layout-arith|{pname}")
+        else:
+            used = set()
+
+            def names(c):
+                if isinstance(c, tuple):
+                    if c and c[0] == "name":
+                        used.add(c)
+                    for x in c:
+                        names(x)
+            for x in sp:
+                names(x)
+            common = [n for n in sorted(used) if n in dc and n in dp]
+            bad_defs = [n for n in common if strip_self(dc[n]) != strip_self(dp[n])]
+            if bad_defs:
+                n0 = bad_defs[0]
+                chk.bad("R14-d", f"{PY_DIR}/FandangoLexerBase.py", pm_.line, where, f"`{n0[1]}` is computed differently: C++ `{cm.show(dc[n0])}` vs Python `{cm.show(dp[n0])}`",
+                        "the layout decisions are taken on different values", keyparts=f"layout-def|{pname}|{n0[1]}")
+            else:
+                chk.ok("R14-d", where, pm_.line, f"values tested by the decisions are defined alike on both sides: {[n[1] for n in common]}")
+
 
 # ------------------------------------------------------------------ self-test variants
 from ..mutants import M  # noqa: E402
@@ -312,6 +392,10 @@ _CPH = "src/fandango/language/cpp_parser/FandangoLexerBase.h"
 _TOK = "src/fandango/language/cpp_parser/FandangoParser.tokens"
 _LG4 = "language/FandangoLexer.g4"
 MUTANTS = [
+    M("python-bracket-depth-by-truthiness", _PYB, "        if self.opened > 0 or (next_next != -1 and next_ in (10, 13, 35)):\n", "        if self.opened or (next_next != -1 and next_ in (10, 13, 35)):\n", "R14-d"),
+    M("python-tab-is-eight-columns", _PYB, "            if c == \"\\t\":\n                count += 8 - count % 8\n", "            if c == \"\\t\":\n                count += 8\n", "R14-d"),
+    M("cpp-dedent-while-geq", _CPB, "            while (!indents.empty() && indents.back() > indent) {\n", "            while (!indents.empty() && indents.back() >= indent) {\n", "R14-d"),
+    M("python-blank-line-set-loses-cr", _PYB, "next_ in (10, 13, 35)", "next_ in (10, 35)", "R14-d"),
     M("cpp-tokens-stale", _TOK, "INDENT=1\nDEDENT=2\n", "INDENT=1\nDEDENT=2\nEXTRA_TOKEN=999\n", "R14-a"),
     M("grammar-rule-added-not-regenerated", "language/FandangoParser.g4", "kleene: symbol STAR;\n", "kleene: symbol STAR;\nkleene2: symbol STAR STAR;\n", "R14-a"),
     M("python-hook-renamed", _PYB, "def python_end() -> None:", "def python_stop() -> None:", "R14-b"),
@@ -322,6 +406,9 @@ MUTANTS = [
     M("python-reset-forgets-in-python", _PYB, "        self.opened = 0\n        self.in_python = 0\n        self.in_fstring = False\n        self.in_filepath = 0\n        super().reset()", "        self.opened = 0\n        self.in_fstring = False\n        self.in_filepath = 0\n        super().reset()", "R14-c"),
 ]
 TWINS = [
+    M("twin-python-previous-branches-swapped", _PYB, "            previous = 0 if len(self.indents) == 0 else self.indents[-1]\n", "            previous = self.indents[-1] if self.indents else 0\n", None),
+    M("twin-python-truthiness-of-lists", _PYB, "                while len(self.indents) > 0 and self.indents[-1] > indent:\n", "                while self.indents and indent < self.indents[-1]:\n", None),
+    M("twin-python-previous-by-truthiness", _PYB, "            previous = 0 if len(self.indents) == 0 else self.indents[-1]\n", "            previous = 0 if not self.indents else self.indents[-1]\n", None),
     M("twin-python-docstring", _PYB, "    def open_brace(self) -> None:\n        self.opened += 1\n", "    def open_brace(self) -> None:\n        \"\"\"count an opening brace\"\"\"\n        self.opened += 1\n", None),
     M("twin-cpp-comment", _CPB, "void FandangoLexerBase::_open_brace() {\n    opened++;\n}", "void FandangoLexerBase::_open_brace() {\n    // one more\n    opened++;\n}", None),
 ]
